@@ -269,3 +269,4 @@ def r7(ctx: Ctx) -> None:
     _c04.r1(ctx)
     _c04.r2(ctx)
     _c04.r4(ctx)
+    _c04.yaml_emitter_keeps_order(ctx)     # die and allocation documents go through the same sink
